@@ -216,6 +216,13 @@ func (g *gen) decodeStepShape(m *Message, f *Field, h2 bool, shapeNo int) {
 		defer func() {
 			all := g.sb.String()
 			seg := regexp.MustCompile(`nkind := vhChoice\([^)]*\)`).ReplaceAllString(all[shapeMark:], "nkind := 0")
+			// ... and the key / value sub-record tags are minimal (padded tags are shapes 0..4)
+			seg = regexp.MustCompile(`vhTag\(entry, (\d), (protowire\.\w+), "[kw]"\)`).ReplaceAllString(seg, "protowire.AppendTag(entry, $1, $2)")
+			if g.tier != "thorough" {
+				// quick: varint keys and values are one-byte minimal varints (7 symbolic bits)
+				seg = regexp.MustCompile(`raw := vhU64\("(kv|vv)"\)`).ReplaceAllString(seg, `raw := vhU64("$1") & 0x7f`)
+				seg = regexp.MustCompile(`vhVarint\(entry, raw, "(kv|vv)"\)`).ReplaceAllString(seg, "protowire.AppendVarint(entry, raw)")
+			}
 			g.sb.Reset()
 			g.sb.WriteString(all[:shapeMark])
 			g.sb.WriteString(seg)
@@ -838,7 +845,16 @@ func (g *gen) totalMessage(m *Message, anyN int) {
 	g.p("\tmethods := msg.ProtoMethods()")
 	g.p("\tvhAllocReset()")
 	g.p("\tvhStubNested(true) // nested messages: assume-guarantee (their own harnesses prove them)")
+	// the decoder consumes at least one byte per loop iteration and these inputs are a dozen
+	// bytes: a tight unwinding bound reaches a non-terminating path (reported with its
+	// inputs and replayed natively) in a fraction of the time the default bound needs
+	lb := 16
+	if anyN+4 > lb {
+		lb = anyN + 4
+	}
+	g.p("\tvhSetLoopBound(%d)", lb)
 	g.p("\t_, err := methods.Unmarshal(protoiface.UnmarshalInput{Message: msg, Buf: buf, Depth: 10000})")
+	g.p("\tvhSetLoopBound(40)")
 	g.p("\tvhStubNested(false)")
 	g.p("\t// allocation proportional to the input (8 bytes per input byte for the widest packed kind)")
 	g.p("\tvhAssert(\"alloc.bound\", vhAllocTotal() <= 8*len(buf)+64)")
